@@ -30,6 +30,9 @@ pub enum Source {
     Foreign(Vec<FOp>),
     /// arbitrary bytes
     Raw(Vec<u8>),
+    /// `n` copies of one small message (reference-encoded on chunk stream 3, maximally compressed),
+    /// then `tail`: thousands of complete messages inside one read
+    Flood { type_id: u8, msid: u32, payload: Vec<u8>, n: u32, tail: Vec<FOp> },
 }
 
 #[derive(Clone, Debug, Serialize, Deserialize)]
@@ -108,7 +111,46 @@ pub fn build_stream(case_source: &Source) -> Vec<u8> {
         },
         Source::Foreign(ops) => encode_foreign(ops).stream,
         Source::Raw(b) => b.clone(),
+        Source::Flood { type_id, msid, payload, n, tail } => {
+            let mut enc = crate::refs::chunk::RefChunkEnc::new();
+            let mut out = Vec::new();
+            for i in 0..*n {
+                let msg = Msg { ts: i.wrapping_mul(20), type_id: *type_id, msid: *msid, payload: payload.clone() };
+                let e = enc.encode(&msg, &crate::refs::chunk::EncOpts { csid: 3, want_fmt: 3, three_byte: false, fmt0_continuation: false });
+                for c in &e.chunks {
+                    out.extend_from_slice(c);
+                }
+            }
+            let mut ts_by = std::collections::HashMap::new();
+            ts_by.insert(3u32, n.wrapping_sub(1).wrapping_mul(20));
+            let mut fo = ForeignOut { stream: Vec::new(), expected: Vec::new(), fmts: Vec::new(), non_minimal_csid: false };
+            encode_foreign_into(&mut enc, &mut ts_by, tail, &mut fo);
+            out.extend(fo.stream);
+            out
+        }
     }
+}
+
+/// Floods: an acknowledgement, a ping request, a window size, one audio byte, an unknown type, an
+/// empty message - more than 1024 / 2048 / 4096 of them.
+fn flood_source() -> BoxedStrategy<Source> {
+    (
+        (0usize..7).prop_map(|k| -> (u8, u32, Vec<u8>) {
+            match k {
+                0 => (3, 0, vec![0, 0, 0, 9]),
+                1 => (4, 0, vec![0, 6, 0, 0, 0, 1]),
+                2 => (5, 0, vec![0, 16, 0, 0]),
+                3 => (8, 1, vec![0xAF]),
+                4 => (9, 1, vec![]),
+                5 => (22, 1, vec![1, 2, 3]),
+                _ => (2, 0, vec![0, 0, 0, 9]),
+            }
+        }),
+        gen::pick(&[1000u32, 1023, 1024, 1025, 2047, 2049, 3000, 4097, 6000]),
+        gen::foreign_ops(4, 0, 300),
+    )
+        .prop_map(|((type_id, msid, payload), n, tail)| Source::Flood { type_id, msid, payload, n, tail })
+        .boxed()
 }
 
 pub fn eval(case: &Case) -> Verdict {
@@ -140,6 +182,7 @@ pub fn eval(case: &Case) -> Verdict {
         Source::Library(_) => "source-library-serializer",
         Source::Foreign(_) => "source-foreign-encoder",
         Source::Raw(_) => "source-raw-bytes",
+        Source::Flood { .. } => "source-flood-of-small-messages",
     });
     let mut header_cut_differs = false;
     if case.mutations.is_empty() {
@@ -349,7 +392,7 @@ pub fn spec() -> PropSpec {
     PropSpec {
         id: "C15",
         level: "exploration",
-        rule: "byte streams: library-serialized sequences, RefChunkEnc foreign streams, raw bytes, and mutants of them (byte flips, overwritten bytes from a header-byte pool, 24-bit header fields replaced by boundary values, truncations, duplicated / deleted ranges); sub-check 'deserializer-kilobyte-chunks' uses chunk sizes 4095..65536 and messages up to 70000 bytes; each stream is run under four partitions (one call, byte by byte, two generated ones, optionally with empty polls) through fresh deserializers (and, in the session sub-checks, fresh sessions with the same preparatory history); message sequences, error position and error variant must be identical. Non-trivial = >= 2 messages delivered and a cut strictly inside a chunk header in one generated partition; distinct = distinct case",
+        rule: "byte streams: library-serialized sequences, RefChunkEnc foreign streams, raw bytes, and mutants of them (byte flips, overwritten bytes from a header-byte pool, 24-bit header fields replaced by boundary values, truncations, duplicated / deleted ranges); sub-check 'deserializer-kilobyte-chunks' uses chunk sizes 4095..65536 and messages up to 70000 bytes; sub-checks '…-flood' deliver 1000..6000 copies of one small message (acknowledgement, ping, window size, one audio byte, empty video, unknown type, abort) plus a short tail; each stream is run under four partitions (one call, byte by byte, two generated ones, optionally with empty polls) through fresh deserializers (and, in the session sub-checks, fresh sessions with the same preparatory history); message sequences, error position and error variant must be identical. Non-trivial = >= 2 messages delivered and a cut strictly inside a chunk header in one generated partition; distinct = distinct case",
         assumptions: vec![
             "error position is judged at the granularity the API has: messages returned before the error, and the error variant",
             "sessions: handle_input returns Result<Vec<_>, _>, so results gathered earlier in the failing call are necessarily discarded; asserted: the failing call is the one containing the byte at which byte-by-byte delivery fails, and every earlier call returns exactly the byte-by-byte results of its byte range",
@@ -363,6 +406,8 @@ pub fn spec() -> PropSpec {
                 (src, prop_oneof![3 => Just(Vec::new()), 1 => proptest::collection::vec(mutation(), 1..3)], gen::partition_large(), gen::partition_large()).prop_map(|(source, mutations, c, d)| Case { source, mutations, c, d }).boxed()
             }, 3_000, 100_000, eval),
             PropCheck::new("sessions", |_| session_case(), 15_000, 500_000, eval_session),
+            PropCheck::new("deserializer-flood", |_| (flood_source(), gen::partition_large(), gen::partition()).prop_map(|(source, c, d)| Case { source, mutations: vec![], c, d }).boxed(), 60, 2_000, eval),
+            PropCheck::new("sessions-flood", |_| (prop_oneof![(0u8..4).prop_map(Target::Server), (0u8..4).prop_map(Target::Client)], flood_source(), gen::partition_large(), gen::partition()).prop_map(|(target, source, c, d)| SessCase { target, input: Input::Mutated { source, mutations: vec![] }, c, d }).boxed(), 120, 4_000, eval_session),
             crate::targets::corpus_check(&["split"]),
         ],
     }
